@@ -81,6 +81,7 @@ impl Sched {
 
     /// Called by the running thread at a scheduling point.
     pub fn point(&self, tid: usize) {
+        let _quiet = crate::env::no_alloc_points();
         let mut g = self.m.lock().unwrap();
         if g.free_run {
             return;
@@ -120,6 +121,7 @@ impl Sched {
     }
 
     fn finish(&self, tid: usize) {
+        let _quiet = crate::env::no_alloc_points();
         let mut g = self.m.lock().unwrap();
         g.finished[tid] = true;
         if g.free_run {
